@@ -81,9 +81,11 @@ def generate(prop, seed, tier):
             op = {"op": "save", "contour": c, "path": S.pick(["contour", "contour.txt", "out.csv", "my.contour", "dir.d/c", "noext.", "x.dat", "Ünï"]), "subdir": S.wpick([(None, 6), ("sub", 1)]), "semantics": _gen_semantics(S, c["dim"]), "fault": None, "again": S.chance(0.5)}
             if S.chance(0.45):
                 op["fault"] = _gen_write_fault(S)
+            # history: the same path is written again with a shorter contour (no stale tail may survive)
+            op["then_shorter"] = S.chance(0.35)
             ops.append(op)
         elif kind == "load":
-            op = {"op": "load", "rows": S.pick([1, 2, 3, 10, 100, 1000, 10000] if tier == "thorough" else [1, 2, 3, 10, 100, 1000]), "cols": S.int(1, 3), "fseed": S.sub("file", k), "prec": S.pick([4, 2, 6]), "final_newline": S.chance(0.8), "fault": None,
+            op = {"op": "load", "rows": S.pick([1, 2, 3, 10, 100, 1000, 10000] if tier == "thorough" else [1, 2, 3, 10, 100, 1000]), "cols": S.int(1, 3), "fseed": S.sub("file", k), "prec": S.pick([4, 2, 6]), "final_newline": S.chance(0.8), "crlf": S.chance(0.2), "fault": None,
                   # history: the caller changes the returned frame in place, then reads the same file again
                   "reload": S.wpick([(None, 3), ("scale", 1), ("drop", 1), ("rename", 1), ("plain", 1)])}
             if S.chance(0.5):
@@ -270,6 +272,23 @@ def do_save(run, scen, op, si, root, model2, model3):
             return
         if attempt > 0:
             run.count("probe:save-after-fault-recovers" if op["fault"] else "probe:save-overwrites")
+    if op.get("then_shorter") and not run.violations and len(coords) > 3:
+        class _Short:  # a contour is anything with .coordinates
+            coordinates = coords[: max(2, len(coords) // 3)].copy()
+
+        exc = None
+        try:
+            save_contour_coordinates(_Short(), path, copy.deepcopy(op["semantics"]))
+        except Exception as e:  # noqa: BLE001
+            exc = e
+        run.event("save-shorter", [site, rel], type(exc).__name__ if exc else None)
+        if exc is not None:
+            run.violate("save-raises", f"{site}/{type(exc).__name__}/overwrite", {"exc": repr(exc)[:300], "step": si})
+            return
+        defect = check_saved_file(expect_path, _Short.coordinates, header)
+        run.count("probe:save-overwrites-with-shorter-contour")
+        if defect is not None:
+            run.violate("save-content", defect["what"] + "/overwrite-with-shorter-contour", {"defect": defect, "path": rel, "step": si})
 
 
 # --------------------------------------------------------------------------
@@ -294,8 +313,9 @@ def do_load(run, scen, op, si, root):
         stamps.append(t)
         lines.append(t.strftime("%Y-%m-%d-%H") + "; " + "; ".join(txt))
     path = os.path.join(root, f"l{si}.txt")
-    with open(path, "w") as f:
-        f.write("\n".join(lines) + ("\n" if op["final_newline"] else ""))
+    nl = "\r\n" if op.get("crlf") else "\n"
+    with open(path, "w", newline="") as f:
+        f.write(nl.join(lines) + (nl if op["final_newline"] else ""))
     fault = op["fault"]
     exc = None
     df = None
@@ -732,5 +752,5 @@ def describe(prop):
             "a save that raises may leave anything on disk; a save that returns must have written the complete file",
             "isodensity lines are judged by evaluating the model's pdf at the drawn vertices (25 % tolerance for grid interpolation)",
         ],
-        "probes": ["save-after-fault-recovers", "save-overwrites", "reader-bypassed-file-seam", "file-read-again-after-caller-changed-frame"],
+        "probes": ["save-after-fault-recovers", "save-overwrites", "reader-bypassed-file-seam", "file-read-again-after-caller-changed-frame", "save-overwrites-with-shorter-contour"],
     }
